@@ -875,3 +875,182 @@ pub proof fn thm_c14_nren_co2_cgn(comps: Components, comps2: Components, w: Seq<
     lemma_csum_le(dom, gsel(bcr, f3), gsel(bcr2, f3), carriers12());
     lemma_csum_le(dom, gsel(bcr, f4), gsel(bcr2, f4), carriers12());
 }
+
+// ================================================================================================ the RER sentence, buildings without cogenerated electricity
+// (with renewable cogeneration the sentence is false on the current tree: known finding D9)
+/// renewable part of the electricity factors: on-site electricity is delivered and exported (step A) with the same factor f1, and the grid
+/// factor does not exceed it
+pub open spec fn c14_ren_shape(w: Seq<Factor>) -> bool {
+    let el = Carrier::ELECTRICIDAD; let f1 = fp(w, el, Source::INSITU, Dest::SUMINISTRO, Step::A).ren;
+    &&& fp(w, el, Source::INSITU, Dest::A_NEPB, Step::A).ren == f1 && fp(w, el, Source::INSITU, Dest::A_RED, Step::A).ren == f1
+    &&& fgrid(w, el).ren <= f1
+}
+pub proof fn lemma_fsum_sumf2(v: Seq<f32>, f: spec_fn(int) -> real)
+    requires forall|i: int| 0 <= i < v.len() ==> #[trigger] f(i) == rv(v[i]),
+    ensures sumf(v) == fsum(f, v.len() as int),
+{ lemma_fsum_sumf(v, f); }
+/// electricity without cogeneration, k_exp = 0: renewable part = grid factor x (EPB use + cogeneration input) + (f1 - grid factor) x produced energy used on site
+#[verifier::spinoff_prover]
+pub proof fn lemma_c14_el_ren(wf: Seq<Factor>, a: Run, lm: bool, we: WeightedEnergy)
+    requires run_ok(a, lm), nonneg_list(a.cs), wf_list(a.cs, run_n(a) as nat), same_carrier(a.cs, Carrier::ELECTRICIDAD), clear_run(a),
+             !any_sel(a.cs, Sel::Prod(ProdSource::EL_COGEN)), cwe_post(wf, Carrier::ELECTRICIDAD, 0real, a.used, a.exp, a.del, Ok(we)), c14_ren_shape(wf),
+    ensures rv(we.b.ren) == fgrid(wf, Carrier::ELECTRICIDAD).ren * (rv(a.used.epus_an) + rv(a.used.cgnus_an))
+                + (fp(wf, Carrier::ELECTRICIDAD, Source::INSITU, Dest::SUMINISTRO, Step::A).ren - fgrid(wf, Carrier::ELECTRICIDAD).ren) * rv(a.prod.epus_an),
+{
+    let el = Carrier::ELECTRICIDAD; let pv = ProdSource::EL_INSITU; let n = run_n(a);
+    let exp = a.exp; let del = a.del; let m = exp.by_src_an@; let mp = a.prod.by_src_t@;
+    let en = rv(exp.an); let nn = rv(exp.nepus_an); let rr = rv(exp.grid_an);
+    let fg = fgrid(wf, el).ren; let f1 = fp(wf, el, Source::INSITU, Dest::SUMINISTRO, Step::A).ren;
+    let gr = rv(del.grid_an); let cg = rv(a.used.cgnus_an); let ons = rv(del.onst_an); let us = rv(a.used.epus_an); let uu = rv(a.prod.epus_an);
+    assert(e_has_carrier(a.cs[0], el));
+    lemma_c14_src_sum(a, lm);
+    assert(!mp.contains_key(ProdSource::EL_COGEN));
+    assert(m.dom() =~= mp.dom());
+    let e1 = mval(m, pv);
+    assert(e1 == en);
+    // annual identities: grid delivery = EPB use - used production; on-site delivery = exported + used production
+    assert(!mp.contains_key(ProdSource::TERMOSOLAR)) by { if any_sel(a.cs, Sel::Prod(ProdSource::TERMOSOLAR)) { lemma_has_prod_carrier(a.cs, el, ProdSource::TERMOSOLAR); } }
+    assert(!mp.contains_key(ProdSource::EAMBIENTE)) by { if any_sel(a.cs, Sel::Prod(ProdSource::EAMBIENTE)) { lemma_has_prod_carrier(a.cs, el, ProdSource::EAMBIENTE); } }
+    let z = |i: int| 0real;
+    let fu = |i: int| rv(a.used.epus_t@[i]); let fgd = |i: int| rv(del.grid_t@[i]); let fe = |i: int| rv(a.prod.epus_t@[i]);
+    let fo = |i: int| rv(del.onst_t@[i]); let fx = |i: int| rv(exp.t@[i]);
+    assert(flows_shape(a.used, a.prod));
+    assert(a.used.epus_t@.len() == n && del.grid_t@.len() == n && a.prod.epus_t@.len() == n && del.onst_t@.len() == n && exp.t@.len() == n);
+    lemma_fsum_sumf2(a.used.epus_t@, fu); lemma_fsum_sumf2(del.grid_t@, fgd); lemma_fsum_sumf2(a.prod.epus_t@, fe); lemma_fsum_sumf2(del.onst_t@, fo); lemma_fsum_sumf2(exp.t@, fx);
+    assert forall|i: int| 0 <= i < n implies #[trigger] z(i) == 0real by {}
+    lemma_fsum_zero(z, n);
+    assert forall|i: int| 0 <= i < n implies #[trigger] fu(i) == fgd(i) + fe(i) + z(i) by { assert(rv(del.grid_t@[i]) == rv(a.used.epus_t@[i]) - rv(a.prod.epus_t@[i])); }
+    lemma_fsum_add3(fgd, fe, z, fu, n);
+    assert forall|i: int| 0 <= i < n implies #[trigger] fo(i) == fx(i) + fe(i) + z(i) by {
+        assert(rv(del.onst_t@[i]) == onsite_sum(mp, i));
+        assert(rv(a.prod.t@[i]) == all_src_sum(mp, i));
+        assert(rv(exp.t@[i]) == rv(a.prod.t@[i]) - rv(a.prod.epus_t@[i]));
+    }
+    lemma_fsum_add3(fx, fe, z, fo, n);
+    lemma_exp_an_sum(a);
+    assert(us == gr + uu && ons == en + uu);
+    // weighted
+    assert(r3v(we.b) == we_b(wf, el, exp, del, 0real));
+    lemma_mul0(f1); lemma_mul0(fg);
+    assert(we_del_onst(wf, el, del).ren == ons * f1);
+    assert(we_del(wf, el, del).ren == gr * fg + ons * f1 + cg * fg);
+    let xa;
+    if en == 0real {
+        assert(we_exp(wf, el, exp, 0real) == r3z());
+        xa = 0real;
+        lemma_mul0(f1);
+    } else {
+        assert(en > 0real) by { lemma_c13_flows(a, lm); }
+        assert(m.contains_key(pv));
+        let w1 = e1 / en;
+        assert(w1 == 1real) by(nonlinear_arith) requires e1 == en, en != 0real, w1 == e1 / en;
+        let tn = favg(wf, el, m, en, Dest::A_NEPB, Step::A).ren; let tr = favg(wf, el, m, en, Dest::A_RED, Step::A).ren;
+        assert(tn == 1real * f1 && tr == 1real * f1);
+        assert(1real * f1 == f1) by(nonlinear_arith);
+        assert(we_exp_nepus_a(wf, el, exp).ren == nn * f1) by { if nn == 0real { lemma_mul0(f1); } }
+        assert(we_exp_grid_a(wf, el, exp).ren == rr * f1) by { if rr == 0real { lemma_mul0(f1); } }
+        assert(nn * f1 + rr * f1 == en * f1) by(nonlinear_arith) requires en == nn + rr;
+        let eab = we_exp_ab(wf, el, exp);
+        lemma_mul0(eab.ren);
+        assert(we_exp(wf, el, exp, 0real).ren == en * f1);
+        xa = en * f1;
+    }
+    assert(rv(we.b.ren) == gr * fg + ons * f1 + cg * fg - xa);
+    assert(gr * fg + ons * f1 + cg * fg - en * f1 == fg * (us + cg) + (f1 - fg) * uu) by(nonlinear_arith) requires us == gr + uu, ons == en + uu;
+}
+pub proof fn lemma_rer_mono(ren: real, nren: real, ren2: real, nren2: real)
+    requires 0real <= ren <= ren2, 0real <= nren2 <= nren,
+    ensures rer_spec(R3 { ren: ren2, nren: nren2, co2: 0real }) >= rer_spec(R3 { ren: ren, nren: nren, co2: 0real }),
+{
+    let t = ren + nren; let t2 = ren2 + nren2;
+    if t > 0real {
+        if t2 > 0real {
+            assert(ren2 * nren >= ren * nren2) by(nonlinear_arith) requires 0real <= ren <= ren2, 0real <= nren2 <= nren;
+            assert(ren2 * t >= ren * t2) by(nonlinear_arith) requires ren2 * nren >= ren * nren2, t == ren + nren, t2 == ren2 + nren2;
+            lemma_div_le(ren, t, ren2, t2);
+        } else {
+            assert(ren == 0real);
+            assert(0real / t == 0real) by(nonlinear_arith) requires t > 0real;
+        }
+    } else if t2 > 0real {
+        assert(ren2 / t2 >= 0real) by(nonlinear_arith) requires ren2 >= 0real, t2 > 0real;
+    }
+}
+#[verifier::spinoff_prover]
+pub proof fn lemma_c14_carrier_ren(comps: Components, comps2: Components, w: Seq<Factor>, k_exp: f32, lm: bool, x: EnergyPerformance, z: EnergyPerformance, c: Carrier)
+    requires comps_wf(comps.data@), comps_wf(comps2.data@), nonneg_list(comps.data@), nonneg_list(comps2.data@), more_onsite_el(comps.data@, comps2.data@),
+             ep_carriers_ok(comps, k_exp, lm, x), ep_carriers_ok(comps2, k_exp, lm, z), x.wfactors.wdata@ == w, z.wfactors.wdata@ == w,
+             rv(k_exp) == 0real, !any_sel(comps.data@, Sel::Prod(ProdSource::EL_COGEN)), c14_ren_shape(w),
+             c13_clear(x.balance_cr@), c13_clear(z.balance_cr@), x.balance_cr@.contains_key(c),
+    ensures z.balance_cr@.contains_key(c), rv(z.balance_cr@[c].we.b.ren) >= rv(x.balance_cr@[c].we.b.ren),
+{
+    let cs = comps.data@; let cs2 = comps2.data@; let el = Carrier::ELECTRICIDAD;
+    let n = nsteps(cs);
+    assert(nsteps(cs2) == n) by { if cs.len() > 0 { assert(e_vals(cs2[0]).len() == e_vals(cs[0]).len()); } }
+    lemma_avail_tags(cs, cs2, c);
+    reveal(bfc_post);
+    let bx = x.balance_cr@[c]; let bz = z.balance_cr@[c];
+    let fa = filter_carrier(cs, c); let fb = filter_carrier(cs2, c);
+    let a = Run { cs: fa, used: bx.used, prod: bx.prod, fm: bx.f_match@, exp: bx.exp, del: bx.del };
+    let b = Run { cs: fb, used: bz.used, prod: bz.prod, fm: bz.f_match@, exp: bz.exp, del: bz.del };
+    lemma_filter_carrier(cs, c, n); lemma_filter_carrier(cs2, c, n);
+    lemma_nonneg_filter(cs, c); lemma_nonneg_filter(cs2, c);
+    lemma_more_onsite_filter(cs, cs2, c);
+    assert(e_has_carrier(fa[0], c) && e_has_carrier(fb[0], c));
+    assert(run_n(a) == n && run_n(b) == n) by { assert(e_vals(fa[0]).len() == n && e_vals(fb[0]).len() == n); }
+    assert(clear_run(a) && clear_run(b)) by { assert(clear_prod(bx.prod.t@) && clear_prod(bz.prod.t@)); }
+    if c == el {
+        lemma_acc_filter(cs, c, Sel::Prod(ProdSource::EL_COGEN), Sel::Prod(ProdSource::EL_COGEN), 0);
+        lemma_any_sel_tags(fa, fb, Sel::Prod(ProdSource::EL_COGEN));
+        lemma_c14_el_ren(w, a, lm, bx.we); lemma_c14_el_ren(w, b, lm, bz.we);
+        let nn = n as nat;
+        assert forall|q: Sel| #[trigger] any_sel(fb, q) == any_sel(fa, q) by { lemma_any_sel_tags(fa, fb, q); }
+        assert forall|i: int| 0 <= i < nn implies #[trigger] acc(fb, Sel::Epus, i) == acc(fa, Sel::Epus, i) by { lemma_more_onsite_acc(fa, fb, Sel::Epus, i, nn); }
+        assert forall|s: ProdSource, i: int| 0 <= i < nn implies #[trigger] acc(fb, Sel::Prod(s), i) >= acc(fa, Sel::Prod(s), i) by { lemma_more_onsite_acc(fa, fb, Sel::Prod(s), i, nn); }
+        thm_c14_grid_carrier(a, b, lm);
+        assert forall|i: int| 0 <= i < a.used.cgnus_t@.len() implies rv(#[trigger] a.used.cgnus_t@[i]) == rv(b.used.cgnus_t@[i]) by { lemma_more_onsite_acc(fa, fb, Sel::Cgn, i, nn); }
+        lemma_sumf_eq(a.used.cgnus_t@, b.used.cgnus_t@);
+        assert forall|i: int| 0 <= i < a.used.epus_t@.len() implies rv(#[trigger] a.used.epus_t@[i]) == rv(b.used.epus_t@[i]) by { assert(acc(fb, Sel::Epus, i) == acc(fa, Sel::Epus, i)); }
+        lemma_sumf_eq(a.used.epus_t@, b.used.epus_t@);
+        assert(a.prod.epus_t@.len() == n && b.prod.epus_t@.len() == n);
+        assert forall|i: int| 0 <= i < a.prod.epus_t@.len() implies rv(#[trigger] a.prod.epus_t@[i]) <= rv(b.prod.epus_t@[i]) by { assert(rv(b.del.grid_t@[i]) <= rv(a.del.grid_t@[i]) && rv(b.prod.epus_t@[i]) >= rv(a.prod.epus_t@[i])); }
+        lemma_sumf_le(a.prod.epus_t@, b.prod.epus_t@);
+        let d = fp(w, el, Source::INSITU, Dest::SUMINISTRO, Step::A).ren - fgrid(w, el).ren;
+        let ua = rv(a.prod.epus_an); let ub = rv(b.prod.epus_an);
+        assert(d * ua <= d * ub) by(nonlinear_arith) requires d >= 0real, ua <= ub;
+    } else {
+        assert(!any_sel(fa, Sel::Prod(ProdSource::EL_INSITU))) by { if any_sel(fa, Sel::Prod(ProdSource::EL_INSITU)) { lemma_has_prod_carrier(fa, c, ProdSource::EL_INSITU); } }
+        assert(fp_same(w, w, c));
+        lemma_c14_same(w, w, c, a, b, lm, bx.we, bz.we, rv(k_exp));
+    }
+}
+/// C14 (RER sentence) at the public entry point, buildings WITHOUT cogenerated electricity, k_exp = 0: more on-site electricity
+/// production at any steps, everything else equal, never lowers RER (the renewable primary energy does not decrease, the
+/// non-renewable does not increase, both are non-negative)
+pub proof fn thm_c14_rer(comps: Components, comps2: Components, w: Seq<Factor>, k_exp: f32, area: f32, lm: bool, r: Result<EnergyPerformance>, r2: Result<EnergyPerformance>)
+    requires comps_wf(comps.data@), comps_wf(comps2.data@), nonneg_list(comps.data@), nonneg_list(comps2.data@), more_onsite_el(comps.data@, comps2.data@),
+             ep_post(comps, w, k_exp, area, lm, r), ep_post(comps2, w, k_exp, area, lm, r2), r is Ok, r2 is Ok,
+             rv(k_exp) == 0real, !any_sel(comps.data@, Sel::Prod(ProdSource::EL_COGEN)), c14_shape(w, 1), c14_shape(w, 2), c14_ren_shape(w), c13_factors(w),
+             c13_clear(r->Ok_0.balance_cr@), c13_clear(r2->Ok_0.balance_cr@),
+    ensures rv(r2->Ok_0.balance.we.b.ren) >= rv(r->Ok_0.balance.we.b.ren), rv(r2->Ok_0.balance.we.b.nren) <= rv(r->Ok_0.balance.we.b.nren),
+            rv(r2->Ok_0.rer) >= rv(r->Ok_0.rer),
+{
+    let x = r->Ok_0; let z = r2->Ok_0; let cs = comps.data@; let cs2 = comps2.data@;
+    let bcr = x.balance_cr@; let bcr2 = z.balance_cr@;
+    thm_c14_nren_co2(comps, comps2, w, k_exp, area, lm, r, r2);
+    thm_c13_range(comps, w, k_exp, area, lm, r); thm_c13_range(comps2, w, k_exp, area, lm, r2);
+    assert(any_sel(cs2, Sel::Prod(ProdSource::EL_COGEN)) == any_sel(cs, Sel::Prod(ProdSource::EL_COGEN))) by { lemma_any_sel_tags(cs, cs2, Sel::Prod(ProdSource::EL_COGEN)); }
+    assert(x.wfactors.wdata@ == w && z.wfactors.wdata@ == w);
+    assert(ep_carriers_ok(comps, k_exp, lm, x) && ep_carriers_ok(comps2, k_exp, lm, z));
+    assert forall|c: Carrier| bcr.contains_key(c) implies bcr2.contains_key(c) && rv(bcr2[c].we.b.ren) >= rv((#[trigger] bcr[c]).we.b.ren) by { lemma_c14_carrier_ren(comps, comps2, w, k_exp, lm, x, z, c); }
+    assert forall|c: Carrier| bcr.contains_key(c) == bcr2.contains_key(c) by { lemma_avail_tags(cs, cs2, c); }
+    assert(bcr2.dom() =~= bcr.dom());
+    thm_c04_totals(bcr, comps, x.balance); thm_c04_totals(bcr2, comps2, z.balance);
+    let dom = bcr.dom();
+    let f = |q: BalanceCarrier| rv(q.we.b.ren);
+    assert forall|c: Carrier| dom.contains(c) implies #[trigger] gsel(bcr, f)(c) <= gsel(bcr2, f)(c) by { assert(rv(bcr2[c].we.b.ren) >= rv(bcr[c].we.b.ren)); }
+    lemma_csum_le(dom, gsel(bcr2, f), gsel(bcr, f), carriers12());
+    let ren = rv(x.balance.we.b.ren); let nren = rv(x.balance.we.b.nren); let ren2 = rv(z.balance.we.b.ren); let nren2 = rv(z.balance.we.b.nren);
+    lemma_rer_mono(ren, nren, ren2, nren2);
+    assert(rv(x.rer) == rer_spec(r3v(x.balance.we.b)) && rv(z.rer) == rer_spec(r3v(z.balance.we.b)));
+}
